@@ -59,6 +59,7 @@ def batches(tier):
             {"name": "fock", "runs": 260, "weight": 4, "seed_offset": 200000},
             {"name": "misuse", "runs": 780, "weight": 1, "seed_offset": 300000},
             {"name": "foreign", "runs": 780, "weight": 2, "seed_offset": 400000},
+            {"name": "fockcount", "runs": 240, "weight": 2, "seed_offset": 500000},
         ]
     return [
         {"name": "gaussian", "runs": 30000, "weight": 4},
@@ -66,6 +67,7 @@ def batches(tier):
         {"name": "fock", "runs": 4000, "weight": 5, "seed_offset": 200000},
         {"name": "misuse", "runs": 10000, "weight": 1, "seed_offset": 300000},
         {"name": "foreign", "runs": 12000, "weight": 2, "seed_offset": 400000},
+        {"name": "fockcount", "runs": 4000, "weight": 2, "seed_offset": 500000},
     ]
 
 
@@ -127,8 +129,35 @@ def gen_param(r, kind, frees, meas, depth, backend):
     raise KeyError(kind)
 
 
+def gen_fockcount(r, seed):
+    """photon-counting outcomes as parameters: number states (+ a beamsplitter), one multi-mode MeasureFock in any mode order, then
+    feed-forward operations whose parameters are expressions over the counts"""
+    n = r.randint(2, 3)
+    ops = [{"op": "Fock", "p": [r.randint(0, 2)], "m": [m]} for m in range(n)]
+    if r.random() < 0.5:
+        ops.append({"op": "BSgate", "p": [rnd(r, 0.2, 1.3), rnd(r, 0, 3)], "m": r.sample(range(n), 2)})
+    k = r.randint(1, n - 1)
+    ms = r.sample(range(n), k)
+    ops.append({"op": "MeasureFock", "m": ms})
+    rest = [m for m in range(n) if m not in ms]
+    for _ in range(r.randint(1, 4)):
+        tg = r.choice(rest)
+        e = gen_expr(r, r.choice([1, 2]), [], ms)
+        if not meas_deps(e):
+            e = {"mul": [{"meas": r.choice(ms)}, rnd(r, 0.05, 0.3)]}
+        g = r.choice(["Dgate", "Rgate", "Sgate", "Kgate"])
+        p = {"Dgate": [bounded(e, 0.3) if True else e, rnd(r, 0, 3)], "Rgate": [e], "Sgate": [bounded(e, 0.2), rnd(r, 0, 3)], "Kgate": [bounded(e, 1.0)]}[g]
+        if g == "Dgate":
+            p[0] = {"mul": [0.3, {"pow": [{"fn": "tanh", "a": e}, 2]}]}
+        ops.append({"op": g, "p": p, "m": [tg]})
+    return {"backend": "fock", "n": n, "segs": [{"n": n, "name": "seg0", "ops": ops}], "bind": {}, "tape": {}, "how": {"mode": "run", "optimize": False},
+            "cutoff": 5, "foreign": [], "misuse": None, "fockcount": True, "pick": round(r.random(), 6)}
+
+
 def generate(seed, tier, batch):
     r = random.Random("c10:%d" % seed)
+    if batch == "fockcount":
+        return gen_fockcount(r, seed)
     big = tier == "thorough"
     backend = batch if batch in ("gaussian", "bosonic", "fock") else r.choice(["gaussian", "gaussian", "bosonic", "fock"] if batch == "misuse" else ["gaussian", "gaussian", "bosonic"])
     n = r.randint(1, 3 if backend == "fock" else 4)
@@ -188,7 +217,7 @@ def generate(seed, tier, batch):
         how = {"mode": "compile", "compiler": "gaussian_unitary", "optimize": False, "bind_first": True}
     script = {"backend": backend, "n": n, "segs": segs, "bind": bind, "tape": tape, "how": how, "cutoff": 6, "foreign": [], "misuse": None}
     if batch == "misuse":
-        script["misuse"] = {"kind": r.choice(["use_before_measure", "use_before_measure_rerun", "unbound", "unknown_name", "unbound_one_of_many"]),
+        script["misuse"] = {"kind": r.choice(["use_before_measure", "use_before_measure_rerun", "unbound", "unknown_name", "unbound_one_of_many", "foreign_param_object"]),
                             "mode": r.randrange(n), "pick": r.random()}
     if batch == "foreign":
         for _ in range(r.randint(1, 3)):
@@ -341,6 +370,8 @@ def execute(script, w):
                 res = eng.run(p, args=bind if symbolic and bind else None, compile_options={"optimize": how["optimize"]})
         return res, eng
 
+    if script.get("fockcount"):
+        return exec_fockcount(script, w, feats)
     with simenv:
         simenv.rng.handler = tape
         if script.get("misuse"):
@@ -408,6 +439,83 @@ def execute(script, w):
             w.probes["symbolic_expression_evaluated"] += 1
         if len(script["segs"]) > 1 and any(meas_deps(e) for sp in script["segs"][1:] for o in sp["ops"] for e in o.get("p", [])):
             w.probes["cross_segment_measured_parameter"] += 1
+
+
+def exec_fockcount(script, w, feats):
+    """symbolic run first (the simulator picks the photon-count outcome at the RNG seam and records it per mode), then the numeric twin
+    built from the recorded counts, run with the same outcome forced"""
+    import strawberryfields as sf
+
+    n, D = script["n"], script["cutoff"]
+    fallback = SeededOutcomes(1, w)
+    ctx = {"modes": None, "forced": None, "drawn": None}
+
+    def on_call(phase, be, name, a, k, out):
+        if name == "measure_fock" and phase == "pre":
+            modes = k.get("modes", a[0] if a else None)
+            ctx["modes"] = [int(m) for m in modes]
+
+    def handler(name, args, kwargs, native):
+        if name != "choice" or ctx["modes"] is None:
+            return fallback(name, args, kwargs, native)
+        p = np.asarray(kwargs.get("p"), dtype=float)
+        fs = sorted(ctx["modes"])
+        shape = (D,) * len(fs)
+        if ctx["forced"] is not None:
+            idx = int(np.ravel_multi_index(tuple(ctx["forced"][m] for m in fs), shape))
+            if p[idx] <= 1e-12:
+                raise Violation("substitution", "twin-state-differs-before-measurement", "the recorded outcome has zero probability in the twin")
+            return idx
+        nz = [i for i, v in enumerate(p) if v > 1e-6]
+        pick = nz[int(script["pick"] * len(nz)) % len(nz)]
+        un = np.unravel_index(pick, shape)
+        ctx["drawn"] = {m: int(un[fs.index(m)]) for m in fs}
+        return pick
+
+    simenv = SimEnv(w, fallback, FaultPlan(), on_call=on_call)
+    sp = script["segs"][0]
+    with simenv:
+        simenv.rng.handler = handler
+        try:
+            ps = build_program(sp)
+            w.step("run", symbolic=True)
+            rs = simenv.engine("fock", {"cutoff_dim": D}).run(ps)
+        except Violation:
+            raise
+        except Exception as ex:  # noqa
+            w.violation("substitution", "symbolic-run-raises", {"exc": type(ex).__name__, "msg": str(ex)[:300]}, feats + ["fock-count"])
+            return
+        if ctx["drawn"] is None:
+            return
+        drawn = ctx["drawn"]
+        # twin: every expression replaced by the number my evaluator computes from the recorded counts
+        mv = []
+        latest = {}
+        for o in sp["ops"]:
+            mv.append(dict(latest))
+            if o["op"] == "MeasureFock":
+                for m in o["m"]:
+                    latest[m] = drawn[m]
+        ctx["forced"] = drawn
+        ctx["modes"] = None
+        try:
+            pt = build_program(sp, numeric={"bind": {}, "mvals_at": mv})
+            w.step("run", symbolic=False)
+            rt = simenv.engine("fock", {"cutoff_dim": D}).run(pt)
+        except Violation:
+            raise
+        except Exception as ex:  # noqa
+            w.probes["twin_not_runnable"] += 1
+            return
+        d = obs_diff(state_obs(rt.state), state_obs(rs.state), 1e-7)
+        if d:
+            w.violation("substitution", "final-state symbolic vs numeric twin", {"diff": d, "counts": drawn, "measured_order": [o["m"] for o in sp["ops"] if o["op"] == "MeasureFock"][0]},
+                        feats + ["fock-count"])
+            return
+        w.nontrivial.add(hashlib.sha256(json.dumps(script, sort_keys=True).encode()).hexdigest()[:16])
+        w.probes["photon_count_as_parameter"] += 1
+        if len(set(drawn.values())) > 1:
+            w.probes["photon_counts_differ_between_modes"] += 1
 
 
 def foreign_activity(script, f, w, simenv):
@@ -566,6 +674,32 @@ def exec_misuse(script, w, simenv, tape, opts, feats, foreign=lambda at: None):
             w.violation("substitution", "bound-run-after-rejected-unbound-run vs numeric twin", {"diff": d, "daggered_symbolic_gate": sym_dag}, feats)
         else:
             w.probes["rerun_after_parameter_error_matches_twin"] += 1
+        return
+    if kind == "foreign_param_object":
+        # binding by parameter *object*: an object that belongs to another program is an unknown parameter of this one
+        p = sf.Program(n)
+        with p.context as q:
+            a = p.params("a")
+            ops.Rgate(a) | q[0]
+        other = sf.Program(n)
+        with other.context as q:
+            beta = other.params("beta")
+            ops.Rgate(beta) | q[0]
+        foreign("after_build")
+        expect_parameter_error(lambda: simenv.engine(backend, opts).run(p, args={a: 0.1, beta: 0.2}), "foreign-parameter-object")
+        # and binding its own object is fine and behaves like the number
+        try:
+            rs = simenv.engine(backend, opts).run(p, args={a: 0.3})
+            pt = sf.Program(n)
+            with pt.context as q:
+                ops.Rgate(0.3) | q[0]
+            rt = simenv.engine(backend, opts).run(pt)
+        except Exception as ex:  # noqa
+            w.violation("misuse", "bind-own-parameter-object-raises", {"exc": type(ex).__name__, "msg": str(ex)[:300]}, feats)
+            return
+        d = obs_diff(state_obs(rt.state), state_obs(rs.state), 1e-7)
+        if d:
+            w.violation("substitution", "binding-by-object vs numeric twin", {"diff": d}, feats)
         return
     if kind == "unknown_name":
         p = sf.Program(n)
